@@ -450,6 +450,11 @@ pub fn malicious(seed: u64, pl: &Pool, rep: &mut Report) {
 
 pub fn run(p: &Params) -> Report {
     let mut rep = Report::new("C11");
+    if let Some(r) = &p.replay {
+        if super::sys::replay(r, &mut rep) {
+            return rep;
+        }
+    }
     let mut prng = Rng::new(p.shard_seed(11));
     let pl = pool(&mut prng, 64);
     if let Some(r) = &p.replay {
@@ -488,5 +493,8 @@ pub fn run(p: &Params) -> Report {
         crate::util::guarded(&mut rep, seed, |rep| malicious(seed, &pl, rep));
     }
     rep.extra.insert("exhaustive_subspaces".into(), json!(["honest half: every log2 distance class 0..256 between lookup target and responder"]));
+    // full stack: lookups through a simulated network in which a few responders slip in a record
+    // at an unrequested distance; honest responders must never end up banned
+    super::sys::run_lookups(p, super::sys::Focus::C11, 0x5C11_0000, 1600, 100_000, &mut rep);
     rep
 }
